@@ -12,13 +12,16 @@ sphere and depends on the radius :math:`r_0` of the sphere.
 
 from sympy import Eq, pi, sin
 from sympy.vector import CoordSys3D
-from symplyphysics import Quantity, units, symbols, clone_as_symbol
+from symplyphysics import Quantity, Symbol, units, symbols, clone_as_symbol
 from symplyphysics.laws.nuclear.buckling import geometric_buckling_from_neutron_flux
 
-dimension_factor = clone_as_symbol(symbols.neutron_flux, subscript="0")
+dimension_factor = Symbol("Phi_0",
+    symbols.neutron_flux.dimension * units.length,
+    display_latex="\\Phi_{0}")
 """
 Dimension factor that appears as a coefficient in the solution to the :ref:`differential
-equation <Diffusion equation from neutron flux>`. See :symbols:`neutron_flux`.
+equation <Diffusion equation from neutron flux>`. It has the dimension of :symbols:`neutron_flux`
+times :symbols:`length`.
 """
 
 radial_distance = symbols.distance_to_origin
